@@ -32,7 +32,8 @@ import (
 //	            answer nothing.  kind h = no error, e = with an error, c = with errClosed (lookup.query skips trackRequest)
 //	   policy   <order>:<seed>:<cancelAfter>   order in which the harness lets outstanding queries return
 //	            (fifo|lifo|rnd|near|far|burst), cancelAfter = -1 or the number of completions after which the context is cancelled;
-//	            a 4th component 1 = the outstanding query functions ignore the cancellation for 2 ms (the lookup must wait)
+//	            a 4th component 1 = the outstanding query functions ignore the cancellation for 2 ms (the lookup must wait),
+//	            2 = in addition the table is shut down at the cancellation (closeReq closed, nobody receives tracked requests)
 //	   events   S<i> query function entered for i, E<i> query function about to return for i, C = context cancelled,
 //	   undrained  query functions still running when lookup.run returned (shutdown has to wait for all of them)
 //	            T<i> / T<i>+ lookup.query handed the answer of i to tab.trackRequest with success = false / true (it sends on the reply channel right after;
@@ -40,6 +41,7 @@ import (
 //	push <target> <max> <ids> | ok <ids>            nodesByDistance.push applied left to right
 //	cl ...                                          content lookup, see c10_content.go
 //	ll ...                                          live node lookup over loopback, see c10_live.go
+//	cu ...                                          content lookup with a uTP transfer, see c10_utp.go
 type c10peer struct {
 	kind  byte
 	nodes []int // -1 = nil entry
@@ -55,6 +57,7 @@ type c10case struct {
 	seed       uint64
 	cancelAt   int
 	hold       bool // outstanding query functions ignore the cancellation (like lookupWorker, which takes no context)
+	tclose     bool // at the cancellation the table is shut down too (Stop(): context cancelled, table closed) while queries are in flight
 }
 
 func init() { registry["C10"] = runC10 }
@@ -119,6 +122,9 @@ func (k *c10case) inputs() string {
 	if k.hold {
 		hold = 1
 	}
+	if k.tclose {
+		hold = 2
+	}
 	return fmt.Sprintf("lk %s %s %s %s %d %s:%d:%d:%d", c10hexid(k.target), strings.Join(ids, ","), c10idxs(k.table), a, ct, k.order, k.seed, k.cancelAt, hold)
 }
 
@@ -143,7 +149,8 @@ func c10parse(f []string) *c10case {
 	k.order = pp[0]
 	k.seed, _ = strconv.ParseUint(pp[1], 10, 64)
 	k.cancelAt, _ = strconv.Atoi(pp[2])
-	k.hold = len(pp) > 3 && pp[3] == "1"
+	k.hold = len(pp) > 3 && (pp[3] == "1" || pp[3] == "2")
+	k.tclose = len(pp) > 3 && pp[3] == "2"
 	return k
 }
 
@@ -263,6 +270,7 @@ func c10exec(k *c10case) string {
 		}
 	}
 
+	closeNow, closedAck := make(chan struct{}), make(chan struct{})
 	type outT struct{ r portalwire.VerifLookupResult }
 	done := make(chan outT, 1)
 	go func() {
@@ -270,7 +278,11 @@ func c10exec(k *c10case) string {
 		for i, v := range k.table {
 			tb[i] = k.ids[v]
 		}
-		done <- outT{portalwire.VerifLookupRun(ctx, k.ids[0], tb, k.target, k.closeTable, query, onTrack)}
+		if k.tclose {
+			done <- outT{portalwire.VerifLookupRunClosable(ctx, k.ids[0], tb, k.target, k.closeTable, query, onTrack, closeNow, closedAck)}
+		} else {
+			done <- outT{portalwire.VerifLookupRun(ctx, k.ids[0], tb, k.target, k.closeTable, query, onTrack)}
+		}
 	}()
 
 	rng := NewRng(k.seed)
@@ -304,11 +316,24 @@ func c10exec(k *c10case) string {
 	}
 	for !finished {
 		// cancellation point
-		if !burst && k.cancelAt >= 0 && released == k.cancelAt && ctx.Err() == nil {
+		if !burst && k.cancelAt >= 0 && released >= k.cancelAt && ctx.Err() == nil {
 			mu.Lock()
-			logev("C")
+			inflight := len(order)
 			mu.Unlock()
-			cancel()
+			// with a table shutdown the point is a query in flight at that moment: wait for one
+			if !k.tclose || inflight > 0 {
+				mu.Lock()
+				logev("C")
+				mu.Unlock()
+				cancel()
+				if k.tclose {
+					close(closeNow)
+					select {
+					case <-closedAck:
+					case <-time.After(time.Second):
+					}
+				}
+			}
 		}
 		mu.Lock()
 		nb := len(order)
@@ -391,6 +416,9 @@ func c10exec(k *c10case) string {
 					mu.Lock()
 					ev := strings.Join(events, ",")
 					mu.Unlock()
+					if k.tclose {
+						return "err timeout after-table-closed " + ev
+					}
 					return "err timeout " + ev
 				}
 			}
@@ -405,7 +433,7 @@ func c10exec(k *c10case) string {
 		}
 	}
 	// every started query has been drained by now; its T event may still be on its way
-	for w := 0; w < 4000 && (undrained == 0 || w < 40); w++ {
+	for w := 0; w < 4000 && ((undrained == 0 && !k.tclose) || w < 40); w++ {
 		mu.Lock()
 		ok := ntracked == nstarted
 		mu.Unlock()
@@ -660,6 +688,10 @@ func c10gen(c *Ctx, n int) *c10case {
 		if k.order != "burst" && r.Intn(2) == 0 {
 			k.hold = true
 			c.Count("cancelled_runs_holding_queries")
+			if r.Intn(3) == 0 {
+				k.tclose = true
+				c.Count("cancelled_runs_closing_the_table")
+			}
 		}
 	}
 	c.Count("order_" + k.order)
@@ -824,6 +856,8 @@ func c10replay(c *Ctx, lines []string) {
 			c10contentReplay(c, f)
 		case "ll":
 			c10liveReplay(c, f)
+		case "cu":
+			c10utpReplay(c, f)
 		}
 	}
 }
@@ -835,6 +869,10 @@ func runC10(c *Ctx) {
 	}
 	if len(c.Args) >= 1 && c.Args[0] == "lkchild" {
 		c10lkchild(c)
+		return
+	}
+	if len(c.Args) >= 1 && c.Args[0] == "cuchild" {
+		c10uchildMain(c, c.Args[1:])
 		return
 	}
 	if len(c.Args) >= 1 && c.Args[0] == "llchild" {
@@ -921,6 +959,7 @@ func runC10(c *Ctx) {
 	}
 	c10content(c)
 	c10livelookups(c)
+	c10utplookups(c)
 }
 
 var _ = bytes.Equal
